@@ -298,8 +298,15 @@ def generate(rng, n, tier):
             yield _gen_log(rng, tier)
         elif r < 0.9:
             yield _gen_files(rng, tier)
-        elif r < 0.98:
+        elif r < 0.968:
             yield _gen_ids(rng, tier)
+        elif r < 0.981:
+            # selecting from a monitor with a list / array of positions or a boolean mask (homogeneous history: numpy indexing)
+            n_ = rng.randint(1, 6); d_ = rng.randint(1, 3)
+            ik = rng.choice(["int_list", "int_array", "mask_list", "mask_array"])
+            idx = [rng.random() < 0.5 for _ in range(n_)] if ik.startswith("mask") else [rng.randrange(-n_, n_) for _ in range(rng.randint(0, n_ + 1))]
+            yield dict(kind="pick", k=rng.choice([None, None, 2, -1, 0.5]), xs=[[rng.randint(-16, 16) / 4.0 for _ in range(d_)] for _ in range(n_)],
+                       ys=[rng.randint(-16, 16) / 4.0 for _ in range(n_)], ids=rng.choice([None, "ints"]), ik=ik, idx=idx)
         elif r < 0.983:
             yield dict(kind="selfop", op=rng.choice(["extend", "prepend", "add"]), k=rng.choice([None, 2, -1]), n=rng.randint(1, 3))
         elif r < 0.99:
@@ -668,6 +675,45 @@ def _guard(seconds=20.0, extra_bytes=1 << 30):
             pass
 
 
+def _run_pick(case):
+    import numpy
+    from mystic.monitors import Monitor
+    m = Monitor(k=case["k"]) if case["k"] is not None else Monitor()
+    for j, (x, y) in enumerate(zip(case["xs"], case["ys"])):
+        m(list(x), y, j if case["ids"] == "ints" else None) if case["ids"] == "ints" else m(list(x), y)
+    idx = list(case["idx"])
+    if case["ik"].endswith("array"):
+        idx = numpy.array(idx, dtype=bool if case["ik"].startswith("mask") else int)
+    before = ([list(map(float, v)) for v in m.x], [float(v) for v in m.y])
+    try:
+        r = m[idx]
+        return dict(x=[list(map(float, v)) for v in r.x], y=[float(v) for v in r.y], id=[None if v is None else int(v) for v in r.id],
+                    k=None if r.k is None else float(r.k), source_unchanged=([list(map(float, v)) for v in m.x], [float(v) for v in m.y]) == before)
+    except (TypeError, IndexError, ValueError) as e:
+        return dict(error=type(e).__name__, msg=str(e)[:160])
+
+
+def _oracle_pick(case, obs):
+    n = len(case["xs"])
+    if case["ik"].startswith("mask"):
+        sel = [j for j, b in enumerate(case["idx"]) if b]
+    else:
+        sel = [j % n for j in case["idx"]]
+    if not sel and not case["idx"] and "error" in obs:
+        return []       # an empty python list has no integer dtype for numpy: outside the claim
+    want = dict(x=[case["xs"][j] for j in sel], y=[case["ys"][j] for j in sel], id=[(j if case["ids"] == "ints" else None) for j in sel])
+    if "error" in obs:
+        return [_fail("nth_roundtrip", "Monitor.__getitem__", "index-list-or-mask-raises", dict(obs=obs, index=case["idx"], kind=case["ik"]))]
+    out = []
+    if obs["x"] != want["x"] or obs["y"] != want["y"] or obs["id"] != want["id"]:
+        out.append(_fail("nth_roundtrip", "Monitor.__getitem__", "index-list-or-mask-selects-other-entries", dict(got=obs, want=want, index=case["idx"], kind=case["ik"])))
+    if not obs.get("source_unchanged", True):
+        out.append(_fail("arguments_unchanged", "Monitor.__getitem__", "source-changed", obs))
+    if (obs["k"] is None) != (case["k"] is None) or (obs["k"] is not None and obs["k"] != float(case["k"])):
+        out.append(_fail("k_kept", "Monitor.__getitem__", "k-not-kept", obs))
+    return out
+
+
 def run_impl(case):
     with _guard(), contextlib.redirect_stdout(io.StringIO()):
         k = case["kind"]
@@ -685,6 +731,8 @@ def run_impl(case):
             return _run_rewrite(case)
         if k == "selfop":
             return _run_selfop(case)
+        if k == "pick":
+            return _run_pick(case)
     raise ValueError(k)
 
 
@@ -974,6 +1022,8 @@ def oracle(case, obs):
         return _oracle_files(case, obs)
     if k == "ids":
         return _oracle_ids(case, obs)
+    if k == "pick":
+        return _oracle_pick(case, obs)
     if k == "call0d":
         if "error" in obs:
             if obs["error"] == "TypeError" and case["k"] is not None:
